@@ -10,6 +10,9 @@ certificates over the joint automaton regenerated from the live Loader/Dumper cl
 import Jap.Lemmas.ScalarCert
 import Jap.Lemmas.ScalarJson
 import Jap.Lemmas.EmitterRoundtrip
+import Jap.Lemmas.YamlDocRoundtrip
+import Jap.Lemmas.JsonDocRoundtrip
+import Jap.Lemmas.SkipDefault
 
 namespace Jap.Props.C01
 open Jap.Scalar
@@ -118,8 +121,8 @@ choose_scalar_style with the dumper's resolver verdict, write_plain / write_sing
 `loadLine` is the scanner's reading of a line that starts with a scalar (fetch decision, plain / single-quoted /
 double-quoted scanning, the reader's character check) together with the loader's resolver for plain text.
 `emitScalar` is `none` — outside the model — exactly when `s` contains a line break (LF, NEL, LS, PS: multi-line
-styles) or when the text does not fit into `best_width` (= 80, extracted) from column `col`, in which case the
-real emitter may fold it at a space.  No other hypothesis remains: every other string over all Unicode scalar
+styles) or when the text does not fit into `best_width` (= 80, extracted) from column `col` AND contains a space
+or is double-quoted, in which case the real emitter may fold it.  No other hypothesis remains: every other string over all Unicode scalar
 values is covered (C0/C1 controls, DEL, BOM, U+FFFE/U+FFFF, non-BMP … are written double-quoted with escapes). -/
 
 /-- value position: whatever the emitter writes for a single-line str that fits the line is read back as that str -/
@@ -135,7 +138,7 @@ theorem C01_str_scalar_roundtrip (col : Nat) (s t : List Char) (h : emitScalar c
       simpa using this
     · cases h
 
-/-- simple-key position (`check_simple_key`: non-empty, shorter than 128, single line; never folded): the key text
+/-- simple-key position (`check_simple_key`: non-empty, `!!str` + text shorter than 128, single line; never folded): the key text
 followed by `:` and a blank (or the end of the line) is read back as that str, leaving the `:` -/
 theorem C01_str_key_roundtrip (s t rest : List Char) (h : emitKey s = some t) (hb : followedBlankZ rest = true)
     (hr : rest.all yamlPrintable = true) :
@@ -150,15 +153,22 @@ theorem C01_str_key_roundtrip (s t rest : List Char) (h : emitKey s = some t) (h
     exact text_roundtrip true s (Char.ofNat 58 :: rest) hc.1.1 (fun _ hs => by simp [hs] at hc)
       (Or.inr ⟨rest, rfl, hb⟩) (by simp [hcolon, hr])
 
-/-- the domain of the model: defined for every single-line string whose text fits into best_width -/
+/-- the domain of the model: defined for every single-line string whose text fits into best_width … -/
 theorem C01_emitScalar_defined (col : Nat) (s : List Char) (h1 : isMultiline s = false)
     (h2 : col + (textOf false s).length ≤ Gen.DumpCfg.yamlBestWidth) : emitScalar col s = some (textOf false s) := by
-  simp [emitScalar, h1, h2]
+  simp [emitScalar, noFold, h1, h2]
 
-theorem C01_emitKey_defined (s : List Char) (h1 : isMultiline s = false) (h2 : s ≠ []) (h3 : s.length < 128) :
+/-- … and, whatever its length and column, for every single-line string without a space that is not written
+double-quoted (paths, URLs, hashes, long numbers as text): PyYAML folds plain and single-quoted text only at spaces -/
+theorem C01_emitScalar_defined_nospace (col : Nat) (s : List Char) (h1 : isMultiline s = false)
+    (h2 : s.any isSpaceA = false) (h3 : styleOf false s ≠ .double) : emitScalar col s = some (textOf false s) := by
+  simp [emitScalar, noFold, h1, h2, h3]
+
+theorem C01_emitKey_defined (s : List Char) (h1 : isMultiline s = false) (h2 : s ≠ []) (h3 : s.length < 123) :
     emitKey s = some (textOf true s) := by
   have : s.isEmpty = false := by cases s <;> simp_all
-  simp [emitKey, h1, this]; omega
+  have h4 : ¬ (128 ≤ 5 + s.length) := by omega
+  simp [emitKey, strTagHandleLen, h1, this, h4]
 
 /-- the three styles occur; float-like strings are quoted (row 1 repaired), `: ` and ` #` force quotes, a TAB
 forces double quotes, the empty string is written `''` -/
@@ -167,8 +177,245 @@ example : emitScalar 3 "abc".toList = some "abc".toList ∧ emitScalar 3 "1e3".t
     emitScalar 3 "it's".toList = some "it's".toList ∧ emitScalar 3 "'q'".toList = some "'''q'''".toList ∧
     emitScalar 3 "a\tb".toList = some "\"a\\tb\"".toList ∧ emitScalar 3 [] = some "''".toList ∧
     emitScalar 3 "-x".toList = some "-x".toList ∧ emitScalar 3 "- x".toList = some "'- x'".toList ∧
-    emitKey "a:b".toList = some "a:b".toList ∧ emitKey [] = none ∧ emitScalar 3 "a\nb".toList = none := by
+    emitKey "a:b".toList = some "a:b".toList ∧ emitKey [] = none ∧ emitScalar 3 "a\nb".toList = none ∧
+    emitScalar 70 "/a/long/path/without/spaces".toList = some "/a/long/path/without/spaces".toList ∧
+    emitScalar 70 "1e3456789012345678901234567890".toList = some "'1e3456789012345678901234567890'".toList ∧
+    emitScalar 70 "a long text with spaces".toList = none ∧ emitScalar 70 "tab\there/0123456789".toList = none := by
   decide +kernel
+
+/-! ### whole documents through the yaml text, inside the model
+
+`V` : nested dict / list of scalars (scalar = tag + text).  `emitDoc v` is the block-style text `yaml_dump` writes
+(`expect_block_mapping` / `expect_block_sequence` with the extracted `default_flow_style = False`, indent 2,
+indentless sequences under a key, `[]` / `{}`, simple keys, scalars through `emitSc`); `loadDoc` is the loader on that
+sub-language (line split, `- ` / `key:` / scalar tokens with their columns, recursive descent on the columns,
+`loadLine` + the loader's resolver for every scalar).  `emitDoc v = none` — outside the model — exactly when some
+line does not render: a str value that is multi-line or does not fit `best_width`, a key that is not a simple key
+(empty, multi-line, `!!tag` + text ≥ 128), a non-str scalar the dumper would have to tag.  `VOK v`: every non-str
+scalar text is in the image language of its tag (what the representers write; columns of the regenerated automaton). -/
+
+/-- THE DOCUMENT ROUND TRIP: the text written for any nested value is read back as that value — same structure,
+same key order, every scalar with its tag and text (a str that looks like a number comes back as a str). -/
+theorem C01_yaml_doc_roundtrip (v : V) (t : List Char) (hok : VOK v = true) (h : emitDoc v = some t) :
+    loadDoc t = some v :=
+  loadDoc_emitDoc v t hok h
+
+/-- dump ∘ load ∘ dump = dump on the model -/
+theorem C01_yaml_doc_dump_idem (v : V) (t : List Char) (hok : VOK v = true) (h : emitDoc v = some t) :
+    (loadDoc t).bind emitDoc = some t := by
+  rw [loadDoc_emitDoc v t hok h]; exact h
+
+/-- the structural layer needs no hypothesis: the lines of ANY collection (any depth, any scalars, sequences under
+keys at the key's column, nested `- - `, empty collections) are read back as the collection -/
+theorem C01_yaml_doc_structure (v : V) (hv : ∀ s, v ≠ .sc s) : loadLines (linesNode 0 0 v) = some v :=
+  loadLines_linesNode v hv
+
+/-- the same for a block nested at any column `c`, followed by anything that starts further left: the recursive
+descent returns the value and leaves the rest (what makes the proof compositional) -/
+theorem C01_yaml_block_roundtrip (v : V) (c lo fuel : Nat) (rest : List Tok) (hlo : lo ≤ c)
+    (hf : 3 * (toksNode c v).length + 2 ≤ fuel) (hr : headOK false c rest = true) :
+    pNode fuel lo (toksNode c v ++ rest) = some (v, rest) :=
+  pNode_toks v c lo fuel rest hlo (Nat.le_trans (szV_node v c) hf) hr
+
+/-- one line: indentation, `- ` indicators, `key:`, `key: value` or a value -/
+theorem C01_yaml_line_roundtrip (l : Line) (t : List Char) (hok : bodyOK l.body = true) (h : renderLine l = some t) :
+    scanLine t = some l ∧ ∀ c ∈ t, c ≠ '\n' :=
+  scanLine_renderLine l t hok h
+
+/-- every scalar node, str or not, in key or value position: what the emitter writes is scanned and resolved back to
+the same tag and text (for int / float / bool / null this joins the image-language certificates with the scanner) -/
+theorem C01_scalar_node_roundtrip (sk : Bool) (col : Nat) (s : Sc) (t : List Char) (hok : ScOK s = true)
+    (h : emitSc sk col s = some t) : loadLine t = some (s.tag, s.text, []) := by
+  simpa using emitSc_load sk col s t [] hok h (Or.inl rfl) rfl
+
+/-- domain of the document model: defined as soon as every line renders -/
+theorem C01_emitDoc_defined (v : V) (hv : ∀ s, v ≠ .sc s) (h : ∀ l ∈ linesNode 0 0 v, (renderLine l).isSome = true) :
+    (emitDoc v).isSome = true := by
+  have gen : ∀ ls : List Line, (∀ l ∈ ls, (renderLine l).isSome = true) → (renderLines ls).isSome = true := by
+    intro ls
+    induction ls with
+    | nil => intro _; rfl
+    | cons l ls ih =>
+      intro hl
+      have h1 := hl l List.mem_cons_self
+      have h2 := ih (fun x hx => hl x (List.mem_cons_of_mem _ hx))
+      simp only [renderLines]
+      cases hr : renderLine l with
+      | none => simp [hr] at h1
+      | some t =>
+        cases hrs : renderLines ls with
+        | none => simp [hrs] at h2
+        | some r => rfl
+  cases v with
+  | sc s => exact absurd rfl (hv s)
+  | list xs => simpa [emitDoc] using gen _ h
+  | dict kvs => simpa [emitDoc] using gen _ h
+
+section DocExamples
+private def s' (x : String) : Sc := ⟨.str, x.toList⟩
+private def i' (x : String) : Sc := ⟨.int, x.toList⟩
+/-- `{a: {b: 1, c: [1, ['x y', []], {k: '1e3', 'null': ['', true]}], 0.5: null}, d: {}, '- e': [[{f: -.inf}]]}` -/
+private def exDoc : V :=
+  .dict (.cons (s' "a") (.dict (.cons (s' "b") (.sc (i' "1")) (.cons (s' "c")
+      (.list (.cons (.sc (i' "1")) (.cons (.list (.cons (.sc (s' "x y")) (.cons (.list .nil) .nil)))
+        (.cons (.dict (.cons (s' "k") (.sc (s' "1e3")) (.cons (s' "null") (.list (.cons (.sc (s' "")) (.cons (.sc ⟨.bool, "true".toList⟩) .nil))) .nil))) .nil))))
+      (.cons ⟨.float, "0.5".toList⟩ (.sc ⟨.null, "null".toList⟩) .nil))))
+    (.cons (s' "d") (.dict .nil)
+    (.cons (s' "- e") (.list (.cons (.list (.cons (.dict (.cons (s' "f") (.sc ⟨.float, "-.inf".toList⟩) .nil)) .nil)) .nil)) .nil)))
+
+/-- non-vacuity: the hypotheses hold for a document with every construct, and this is the text -/
+example : VOK exDoc = true ∧ emitDoc exDoc = some
+    "a:\n  b: 1\n  c:\n  - 1\n  - - x y\n    - []\n  - k: '1e3'\n    'null':\n    - ''\n    - true\n  0.5: null\nd: {}\n'- e':\n- - f: -.inf\n".toList := by
+  decide +kernel
+
+example : (emitDoc exDoc).bind loadDoc = some exDoc := by decide +kernel
+
+/-- outside the model (`none`), not failures: a multi-line str, a str that would be folded, a complex key; and a
+scalar node that does not come from a representer violates `VOK` -/
+example : emitDoc (.dict (.cons (s' "a") (.sc (s' "x\ny")) .nil)) = none ∧
+    emitDoc (.list (.cons (.sc (s' "word word word word word word word word word word word word word word word word w")) .nil)) = none ∧
+    emitDoc (.dict (.cons (s' "") (.sc (i' "1")) .nil)) = none ∧ VOK (.sc (i' "0x1F")) = false ∧
+    emitDoc (.list (.cons (.sc (i' "1 2")) .nil)) = none := by decide +kernel
+
+/-- the reader also takes layouts the emitter never writes: a key without a value is null, a sequence under a key
+may be indented; and it refuses what it does not model (flow collections, comments, multi-line scalars) -/
+example : loadDoc "a:\nb:\n  - 1\nc:\n    d: x\n".toList =
+      some (.dict (.cons (s' "a") nullV (.cons (s' "b") (.list (.cons (.sc (i' "1")) .nil))
+        (.cons (s' "c") (.dict (.cons (s' "d") (.sc (s' "x")) .nil)) .nil)))) ∧
+    loadDoc "a: [1]\n".toList = none ∧ loadDoc "a: 1 # c\n".toList = none ∧ loadDoc "a: b\n  c\n".toList = none ∧
+    loadDoc "a:\n    b: 1\n  c: 2\n".toList = none := by decide +kernel
+end DocExamples
+
+/-! ### whole documents through the JSON formats, read back by the YAML loader (`loader_json_superset`)
+
+`jsonDump` / `jsonIndentedDump` : the text of `json_compact_dump` / `json_indented_dump` (json.dumps with the captured
+separators / indent, strings through `jsonEscape`); `jsonLoad` : libyaml on that text — flow collections, `qGo` for the
+string literals, plain scalars resolved by the loader's resolver, the reader's character check, the simple-key rule. -/
+
+/- Full statement (FALSE on the current tree):
+     ∀ v, (keys are str, strings over the safe alphabet, numbers as json.dumps writes finite ones) → jsonLoad (jsonDump v) = some v
+   libyaml accepts a simple key only if its `:` comes within 1024 characters of its first character: a dict key whose
+   JSON literal is longer (1023 characters and more) makes the loader fail on the json / json_indented dump
+   (finding C01-json-long-key; the yaml dump writes such keys in the `? ` form and is fine).  `JOK` carries exactly
+   that bound (`JKeyOK`), next to the two classes excluded already at scalar level (unsafe characters, non-finite floats). -/
+theorem C01_json_doc_roundtrip_partial (v : V) (hv : ∀ s, v ≠ .sc s) (hok : JOK v = true) :
+    jsonLoad (jsonDump v) = some v ∧ jsonLoad (jsonIndentedDump v) = some v := by
+  constructor
+  · simpa [jsonDump] using jsonLoad_jDump v none [] hv hok (Or.inl rfl)
+  · exact jsonLoad_jDump v (some 0) ['\n'] hv hok (Or.inr rfl)
+
+/-- nested at any depth of either format, followed by anything that may follow a value -/
+theorem C01_json_value_roundtrip (v : V) (ind : Option Nat) (fuel : Nat) (rest : List Char) (hok : JOK v = true)
+    (hf : 2 * (jDump ind v).length + 1 ≤ fuel) (hr : termJ rest = true) :
+    jValue fuel (jDump ind v ++ rest) = some (v, rest) :=
+  jValue_dump v ind fuel rest hok (Nat.le_trans (szV_jDump v ind) hf) hr
+
+section JsonExamples
+private def js (x : String) : Sc := ⟨.str, x.toList⟩
+private def longKeyDoc (n : Nat) : V := .dict (.cons ⟨.str, List.replicate n 'k'⟩ (.sc ⟨.int, ['1']⟩) .nil)
+
+/-- the negation witness: the key of 1023 characters (literal of 1025) is not read back, the one of 1022 is -/
+theorem C01_json_doc_long_key_counterexample :
+    jsonLoad (jsonDump (longKeyDoc 1023)) = none ∧ jsonLoad (jsonIndentedDump (longKeyDoc 1023)) = none ∧
+    JOK (longKeyDoc 1023) = false ∧ JOK (longKeyDoc 1022) = true := by decide +kernel
+
+private def exJson : V :=
+  .dict (.cons (js "a") (.list (.cons (.sc ⟨.int, "-12".toList⟩) (.cons (.dict (.cons (js "b \"q\"") (.sc (js "1e3\n")) .nil))
+      (.cons (.list .nil) (.cons (.sc ⟨.float, "1e+22".toList⟩) .nil)))))
+    (.cons (js "") (.sc ⟨.null, "null".toList⟩) (.cons (js "t") (.dict .nil) .nil)))
+
+/-- non-vacuity: the hypothesis holds for a document with every construct; the two texts -/
+example : JOK exJson = true ∧
+    jsonDump exJson = "{\"a\":[-12,{\"b \\\"q\\\"\":\"1e3\\n\"},[],1e+22],\"\":null,\"t\":{}}".toList ∧
+    jsonIndentedDump exJson =
+      "{\n  \"a\": [\n    -12,\n    {\n      \"b \\\"q\\\"\": \"1e3\\n\"\n    },\n    [],\n    1e+22\n  ],\n  \"\": null,\n  \"t\": {}\n}\n".toList := by
+  decide +kernel
+
+/-- the excluded classes are read differently or not at all: `NaN` / `Infinity` come back as str, a raw U+2028 in a key
+ends the simple key -/
+example : jsonLoad "[NaN,-Infinity]".toList = some (.list (.cons (.sc (js "NaN")) (.cons (.sc (js "-Infinity")) .nil))) ∧
+    jsonLoad ['{', '"', 'a', Char.ofNat 0x2028, 'b', '"', ':', '1', '}'] = none ∧
+    jsonLoad "{\"a\":1,}".toList = none ∧ jsonLoad "[1 2]".toList = none := by decide +kernel
+end JsonExamples
+
+/-! ### dump(skip_default=True)
+
+`delKV cfg defaults` : `ArgumentParser._dump_delete_default_entries` on the plain nested dicts (without the
+subclass-spec branch); `reparse s default dumped` : what parsing the reduced dump gives for a node of the parser
+structure `s` — groups are merged into the defaults member by member, a leaf's dumped value replaces its default, an
+absent entry keeps the default; `dumpedNode v d` : what the reduced dump holds for a node (`none` when `v == d`). -/
+
+/- Full statement (FALSE on the current tree, DESIGN §7 row 4, finding C01-skip-default-dict-leaf):
+     ∀ s v d, conf s v → conf s d → nodupS s → reparse s d (dumpedNode v d) = v
+   `_dump_delete_default_entries` recurses into every pair of dicts, also inside the value of a dict-typed ARGUMENT,
+   where the re-parse replaces instead of merging.  Proved: the statement under `leafStable` (at every leaf whose value
+   differs from its default the recursion changes nothing), and the witness. -/
+theorem C01_skip_default_roundtrip_partial (s : Sch) (v d : V) (hv : conf s v = true) (hd : conf s d = true)
+    (hn : nodupS s = true) (hl : leafStable s v d = true) : reparse s d (dumpedNode v d) = v :=
+  reparse_dumped s v d hv hd hn hl
+
+/-- the reduced dict holds, for every key of a configuration with distinct keys: nothing when the value equals the
+default, the recursively reduced value when both are dicts, the value itself otherwise (also when the key has no default) -/
+theorem C01_skip_default_entry (k : Sc) (c d : KVL) (hn : (keysK c).Nodup) :
+    lookupK k (delKV c d) =
+      match lookupK k c with
+      | none => none
+      | some v =>
+        match lookupK k d with
+        | none => some v
+        | some dv => if v = dv then none else some (delVal v dv) :=
+  lookup_delKV k d c hn
+
+/-- nothing is invented: every key of the reduced dict is a key of the configuration -/
+theorem C01_skip_default_keys (k : Sc) (c d : KVL) (h : k ∈ keysK (delKV c d)) : k ∈ keysK c :=
+  keys_delKV_sub d k c h
+
+/-- an entry that is absent from the dump is rebuilt from the defaults, whole groups included -/
+theorem C01_skip_default_absent (s : Sch) (d : V) (hd : conf s d = true) : reparse s d none = d :=
+  reparse_none s d hd
+
+section SkipDefaultExamples
+private def sk (x : String) : Sc := ⟨.str, x.toList⟩
+private def si (x : String) : V := .sc ⟨.int, x.toList⟩
+private def d2 (a b : Sc × V) : V := .dict (.cons a.1 a.2 (.cons b.1 b.2 .nil))
+
+/-- DESIGN §7 row 4: `d = {'a': 1, 'b': 3}` with default `{'a': 1, 'b': 2}` is dumped as `d: {b: 3}` and comes back as `{'b': 3}` -/
+theorem C01_skip_default_counterexample :
+    let v := d2 (sk "a", si "1") (sk "b", si "3")
+    let d := d2 (sk "a", si "1") (sk "b", si "2")
+    dumpedNode v d = some (.dict (.cons (sk "b") (si "3") .nil)) ∧ reparse .leaf d (dumpedNode v d) ≠ v ∧
+    leafStable .leaf v d = false := by decide +kernel
+
+/-- non-vacuity: a parser with a nested group, a dict-typed leaf whose value shares no entry with its default, a leaf
+equal to its default, a changed leaf inside the group; the reduced dump and the hypotheses -/
+example :
+    let s := Sch.group (.cons (sk "g") (.group (.cons (sk "x") .leaf (.cons (sk "y") .leaf .nil)))
+      (.cons (sk "d") .leaf (.cons (sk "n") .leaf .nil)))
+    let dflt := V.dict (.cons (sk "g") (d2 (sk "x", si "1") (sk "y", si "2"))
+      (.cons (sk "d") (d2 (sk "a", si "1") (sk "b", si "2")) (.cons (sk "n") (si "7") .nil)))
+    let cfg := V.dict (.cons (sk "g") (d2 (sk "x", si "1") (sk "y", si "5"))
+      (.cons (sk "d") (d2 (sk "a", si "9") (sk "c", si "2")) (.cons (sk "n") (si "7") .nil)))
+    conf s cfg = true ∧ conf s dflt = true ∧ nodupS s = true ∧ leafStable s cfg dflt = true ∧
+    dumpedNode cfg dflt = some (.dict (.cons (sk "g") (.dict (.cons (sk "y") (si "5") .nil))
+      (.cons (sk "d") (d2 (sk "a", si "9") (sk "c", si "2")) .nil))) ∧
+    reparse s dflt (dumpedNode cfg dflt) = cfg := by decide +kernel
+end SkipDefaultExamples
+
+/-! ### the constants the document models hard-code are the extracted ones -/
+
+/-- `dump_yaml_kwargs` / the Dumper as `yaml_dump` configures it: block style, insertion order, indent 2, width 80, no
+forced scalar style, not canonical; the json dumpers' separators, indent and key order; the yaml loader reads JSON -/
+theorem C01_tie_dump_configuration :
+    Gen.DumpCfg.yamlDefaultFlowStyle = false ∧ Gen.DumpCfg.yamlSortKeys = false ∧ Gen.DumpCfg.yamlBestIndent = 2 ∧
+    Gen.DumpCfg.yamlBestWidth = 80 ∧ Gen.DumpCfg.yamlCanonical = false ∧ Gen.DumpCfg.yamlDefaultStyle = "" ∧
+    Gen.DumpCfg.yamlRepresenterDefaultStyle = "" ∧ Gen.DumpCfg.yamlEmitterAllowUnicode = true ∧
+    Gen.DumpCfg.jsonEnsureAscii = false ∧
+    Gen.DumpCfg.jsonKwargs = ["json:ensure_ascii=False", "json:separators=(',', ':')", "json:sort_keys=False",
+      "json_indented:ensure_ascii=False", "json_indented:indent=2", "json_indented:sort_keys=False"] ∧
+    Gen.DumpCfg.loaderJsonSuperset.lookup "yaml" = some true ∧
+    Gen.DumpCfg.dumperTable.lookup "yaml" = some "yaml_dump" ∧ Gen.DumpCfg.dumperTable.lookup "json" = some "json_compact_dump" ∧
+    Gen.DumpCfg.dumperTable.lookup "json_indented" = some "json_indented_dump" ∧
+    Gen.DumpCfg.loaderTable.lookup "yaml" = some "yaml_load" := by decide
 
 /-! ### non-vacuity and the repaired row 1 -/
 
